@@ -202,22 +202,27 @@ func c19BranchVerdict(k *eng.Check) {
 	}
 	k.Require("ff-verdict-branch", fname+"#roles", "the branch's current commit is the receiver and the candidate commit the argument of CanFastForwardTo", okRecv && okNew && okRef, c.InstrPos(call.(ssa.Instruction)), fmt.Sprintf("receiver is the commit resolved from the branch parameter: %v/%v; argument is the commit parameter: %v", okRecv, okRef, okNew))
 	// true without a test only when the branch does not exist
-	notFound := eng.CondEdgesP(fn, func(v ssa.Value) bool {
-		b, ok := eng.IsCompare(v, token.EQL)
-		if !ok {
-			return false
-		}
-		isNF := func(x ssa.Value) bool {
-			u, ok := x.(*ssa.UnOp)
-			if !ok || u.Op != token.MUL {
+	cmpNF := func(op token.Token) func(v ssa.Value) bool {
+		return func(v ssa.Value) bool {
+			b, ok := eng.IsCompare(v, op)
+			if !ok {
 				return false
 			}
-			g, ok := u.X.(*ssa.Global)
-			return ok && g.Name() == "ErrBranchNotFound"
+			isNF := func(x ssa.Value) bool {
+				u, ok := x.(*ssa.UnOp)
+				if !ok || u.Op != token.MUL {
+					return false
+				}
+				g, ok := u.X.(*ssa.Global)
+				return ok && g.Name() == "ErrBranchNotFound"
+			}
+			isErr := func(x ssa.Value) bool { return eng.ResultOf(x, res[0], 1) }
+			return (isNF(b.X) && isErr(b.Y)) || (isNF(b.Y) && isErr(b.X))
 		}
-		isErr := func(x ssa.Value) bool { return eng.ResultOf(x, res[0], 1) }
-		return (isNF(b.X) && isErr(b.Y)) || (isNF(b.Y) && isErr(b.X))
-	}, true)
+	}
+	// the edge on which err is ErrBranchNotFound: true edge of `==`, false edge of `!=`
+	notFound := eng.CondEdgesP(fn, cmpNF(token.EQL), true)
+	notFound.Union(eng.CondEdgesP(fn, cmpNF(token.NEQ), false))
 	ri := 0
 	consts := eng.NewSet()
 	for in := range c18uReturns(fn).I {
